@@ -4,7 +4,8 @@
    An individual is (uid, wvalues); uid = position in the input list (object identity). *)
 From Coq Require Import List ZArith Bool Permutation.
 From DV Require Import Base.PyTuple Base.PyList Model.C04_NDSort Model.C04_LogSort
-  Proofs.C04_NDSort Proofs.C04_NDLoop Proofs.C04_Spec Proofs.C04_LogWrap.
+  Proofs.C04_NDSort Proofs.C04_NDLoop Proofs.C04_Spec Proofs.C04_LogWrap Proofs.C04_LogRank
+  Proofs.C04_LogSweep Proofs.C04_LogBase Proofs.C04_LogTop Proofs.C04_LogFuel Proofs.C04_LogFinal.
 Import ListNotations.
 Local Open Scope Z_scope.
 
@@ -91,13 +92,106 @@ Proof. exact nd_first_front_only. Qed.
 Print Assumptions C04_sort_nd_first_front_only.
 
 (* ------------------------------------------------------------------------------------------
-   sortLogNondominated.
-   FULL STATEMENT (target):
-     forall pop k ffo, NoDup (map uid pop) -> same_len (map iw pop) -> pop <> [] ->
-       2 <= number of objectives ->
-       exists r, sort_log pop k ffo = Some r /\ Forall2 Permutation (log_fronts r) (spec_sort pop k ffo)
-   Proved here: the wrapper, for ANY rank map that satisfies the rank recurrence
-   (rank f = 0, or 1 + the rank of some dominator, and > the rank of every dominator). *)
+   sortLogNondominated (Fortin et al.): full statement, every population size, every number of
+   objectives >= 2, duplicates, ties, every k, both values of first_front_only.
+   Values are integers (the model of `median` is exact for integer-valued floats, see level note). *)
+Theorem C04_sort_log_correct : forall pop k ffo,
+  NoDup (map uid pop) -> same_len (map iw pop) -> pop <> [] ->
+  (forall x, In x pop -> (2 <= length (iw x))%nat) ->
+  exists r, sort_log pop k ffo = Some r /\ Forall2 (@Permutation ind) (log_fronts r) (spec_sort pop k ffo).
+Proof. exact sort_log_correct. Qed.
+Print Assumptions C04_sort_log_correct.
+
+(* the quadratic and the divide-and-conquer procedure always produce the same ranking *)
+Theorem C04_sorts_agree : forall pop k ffo,
+  NoDup (map uid pop) -> same_len (map iw pop) -> pop <> [] ->
+  (forall x, In x pop -> (2 <= length (iw x))%nat) ->
+  exists fs r, sort_nd pop k ffo = Some fs /\ sort_log pop k ffo = Some r /\
+               Forall2 (@Permutation ind) (log_fronts r) fs.
+Proof. exact sorts_agree. Qed.
+Print Assumptions C04_sorts_agree.
+
+Theorem C04_sort_log_elements_are_inputs : forall pop k ffo r,
+  NoDup (map uid pop) -> same_len (map iw pop) -> pop <> [] ->
+  (forall x, In x pop -> (2 <= length (iw x))%nat) -> sort_log pop k ffo = Some r ->
+  forall x, In x (concat (log_fronts r)) -> In x pop.
+Proof. exact log_elements_are_inputs. Qed.
+Print Assumptions C04_sort_log_elements_are_inputs.
+
+Theorem C04_sort_log_each_once : forall pop k ffo r,
+  NoDup (map uid pop) -> same_len (map iw pop) -> pop <> [] ->
+  (forall x, In x pop -> (2 <= length (iw x))%nat) -> sort_log pop k ffo = Some r ->
+  NoDup (map uid (concat (log_fronts r))).
+Proof. exact log_each_once. Qed.
+Print Assumptions C04_sort_log_each_once.
+
+Theorem C04_sort_log_same_fitness_same_front : forall pop k ffo r,
+  NoDup (map uid pop) -> same_len (map iw pop) -> pop <> [] ->
+  (forall x, In x pop -> (2 <= length (iw x))%nat) -> sort_log pop k ffo = Some r ->
+  forall F x y, In F (log_fronts r) -> In x F -> In y pop -> iw x = iw y -> In y F.
+Proof. exact log_same_fitness_same_front. Qed.
+Print Assumptions C04_sort_log_same_fitness_same_front.
+
+Theorem C04_sort_log_k0 : forall pop ffo, sort_log pop 0 ffo = Some (LFronts []).
+Proof. exact log_k0. Qed.
+Print Assumptions C04_sort_log_k0.
+
+Theorem C04_sort_log_leading_fronts : forall pop k,
+  NoDup (map uid pop) -> same_len (map iw pop) -> pop <> [] ->
+  (forall x, In x pop -> (2 <= length (iw x))%nat) -> k <> 0 ->
+  exists fs j, sort_log pop k false = Some (LFronts fs) /\
+    (j < length (spec_fronts pop))%nat /\
+    Forall2 (@Permutation ind) fs (firstn (S j) (spec_fronts pop)) /\
+    (forall j', (0 < j' <= j)%nat -> ztotal (firstn j' (spec_fronts pop)) < Z.min (zlen pop) k) /\
+    Z.min (zlen pop) k <= ztotal fs.
+Proof. exact log_leading_fronts. Qed.
+Print Assumptions C04_sort_log_leading_fronts.
+
+(* first front only: a flat list (the return shape differs from sortNondominated), exactly the
+   non-dominated set *)
+Theorem C04_sort_log_first_front_only : forall pop k,
+  NoDup (map uid pop) -> same_len (map iw pop) -> pop <> [] ->
+  (forall x, In x pop -> (2 <= length (iw x))%nat) -> k <> 0 ->
+  exists F, sort_log pop k true = Some (LFlat F) /\ NoDup (map uid F) /\
+            forall x, In x F <-> In x pop /\ forall y, In y pop -> idom y x = false.
+Proof. exact log_first_front_only. Qed.
+Print Assumptions C04_sort_log_first_front_only.
+
+(* supporting theorems about the helpers (each holds for every input meeting its precondition) *)
+Theorem C04_helperA_correct : forall Mlen fuel m S fr fr',
+  (1 <= m)%nat -> (Datatypes.S m <= Mlen)%nat -> Apre Mlen m S fr ->
+  helperA fuel S (Z.of_nat m) fr = Some fr' -> A_postR (dom_pref m) S fr fr'.
+Proof. exact helperA_correct. Qed.
+Print Assumptions C04_helperA_correct.
+
+Theorem C04_helperB_correct : forall Mlen fuel m L H fr fr',
+  (1 <= m)%nat -> (S m <= Mlen)%nat -> Bpre Mlen L H fr ->
+  helperB fuel L H (Z.of_nat m) fr = Some fr' -> B_postR (ge_pref m) L H fr fr'.
+Proof. exact helperB_correct. Qed.
+Print Assumptions C04_helperB_correct.
+
+Theorem C04_sweepA_correct : forall fs front,
+  ordered2 fs -> (forall f, In f fs -> (2 <= length f)%nat) -> (forall f, In f fs -> In f (kkeys front)) ->
+  A_postR (dom_pref 1) fs front (sweepA fs front).
+Proof. exact sweepA_correct. Qed.
+Print Assumptions C04_sweepA_correct.
+
+Theorem C04_sweepB_correct : forall best worst front,
+  sorted2 best -> sorted2 worst -> NoDup worst ->
+  (forall l, In l best -> (2 <= length l)%nat) -> (forall h, In h worst -> (2 <= length h)%nat) ->
+  (forall l, In l best -> ~ In l worst) -> (forall h, In h worst -> In h (kkeys front)) ->
+  B_postR (ge_pref 1) best worst front (sweepB best worst front).
+Proof. exact sweepB_correct. Qed.
+Print Assumptions C04_sweepB_correct.
+
+(* the recursion never exhausts the fuel the model gives it *)
+Theorem C04_log_ranks_total : forall pop,
+  pop <> [] -> (forall x, In x pop -> (2 <= length (iw x))%nat) ->
+  exists sorted front, log_ranks pop = Some (sorted, front).
+Proof. exact log_ranks_total. Qed.
+Print Assumptions C04_log_ranks_total.
+
+(* the wrapper, for ANY rank map satisfying the rank recurrence *)
 Theorem C04_log_wrapper_correct : forall pop sorted front k ffo,
   NoDup (map uid pop) -> same_len (map iw pop) -> pop <> [] ->
   Permutation sorted (kkeys (group_inds pop)) -> kkeys front = kkeys (group_inds pop) ->
@@ -112,9 +206,13 @@ Example C04_nonvacuous :
   let pop := [(0%nat, [1; 2]); (1%nat, [2; 1]); (2%nat, [0; 0]); (3%nat, [1; 2])] in
   NoDup (map uid pop) /\ same_len (map iw pop) /\ pop <> [] /\
   sort_nd pop 4 false = Some [[(0%nat, [1; 2]); (3%nat, [1; 2]); (1%nat, [2; 1])]; [(2%nat, [0; 0])]] /\
-  spec_sort pop 4 false = [[(0%nat, [1; 2]); (1%nat, [2; 1]); (3%nat, [1; 2])]; [(2%nat, [0; 0])]].
+  spec_sort pop 4 false = [[(0%nat, [1; 2]); (1%nat, [2; 1]); (3%nat, [1; 2])]; [(2%nat, [0; 0])]] /\
+  (forall x, In x pop -> (2 <= length (iw x))%nat) /\
+  sort_log pop 4 false = Some (LFronts [[(1%nat, [2; 1]); (0%nat, [1; 2]); (3%nat, [1; 2])]; [(2%nat, [0; 0])]]).
 Proof.
-  cbn zeta. split; [|split; [|split; [discriminate|split; vm_compute; reflexivity]]].
+  cbn zeta. split; [|split; [|split; [discriminate|split; [vm_compute; reflexivity|split; [vm_compute; reflexivity|split]]]]].
   - cbn. repeat constructor; cbn; intuition discriminate.
   - intros a b Ha Hb. cbn in Ha, Hb. intuition (subst; reflexivity).
+  - intros x Hx. cbn in Hx. intuition (subst; cbn; auto).
+  - vm_compute. reflexivity.
 Qed.
